@@ -98,7 +98,9 @@ func (c *completion) completeOptionNames(s *parseState, prefix string, match str
 				Description: opt.Description,
 			})
 
-			if short {
+			// Only skip the short name below if it denotes this very
+			// option (another command level may use the same letter)
+			if short && s.lookup.shortNames[string(opt.ShortName)] == opt {
 				repeats[string(opt.ShortName)] = true
 			}
 		}
